@@ -61,9 +61,11 @@ RECURSIVE Arr(_, _)
 Arr(S, n) == IF n = 0 THEN { <<>> }
              ELSE LET P == Arr(S, n - 1)
                   IN  P \cup { Append(p, x) : p \in { q \in P : Len(q) = n - 1 }, x \in S }
+Min(a, b) == IF a < b THEN a ELSE b
 Outcomes(v) ==
   IF v.via = "node" /\ (v.k = 0 \/ Known(v) < v.k + 1) THEN { <<>> }
-  ELSE { s \in Arr(EligibleNames(v.mem), v.k) : NoDup(s) }
+  ELSE LET E == EligibleNames(v.mem)
+       IN  { s \in Arr(E, Min(v.k, Cardinality(E))) : NoDup(s) }   \* k may be as large as 255
 
 PossibleIn(oc, v, r) == r.relays \in oc /\ (v.via = "node" => r.direct = 1) /\ (v.via = "pick" => r.direct = 0)
 Possible(v, r) == PossibleIn(Outcomes(v), v, r)
@@ -83,8 +85,14 @@ PKinds == { <<1, 5>>, <<1, 4>>, <<4, 5>> }
 PickTables == UNION { { [i \in 1..n |-> [nm |-> s[i][1], st |-> s[i][2][1], pm |-> s[i][2][2]]] :
                           s \in [1..n -> ((0..2) \X PKinds)] } : n \in 0..NP }
 
-Vectors == { [a |-> "relay", via |-> "node", k |-> k, mem |-> t] : k \in 0..4, t \in NodeTables }
-           \cup { [a |-> "relay", via |-> "pick", k |-> k, mem |-> t] : k \in 0..3, t \in PickTables }
+\* The relay factor is a uint8 on the wire (messageQuery.RelayFactor, QueryParam.RelayFactor): besides the
+\* small values that straddle the member count (k = members-1, members, members+1 all occur for tables of
+\* 0..NM members) the boundary classes of the type are enumerated: 127/128 (sign bit), 254, 255 (maximum;
+\* k+1 does not fit the type).
+NodeKs == (0..5) \cup {127, 128, 254, 255}
+PickKs == (0..3) \cup {255}
+Vectors == { [a |-> "relay", via |-> "node", k |-> k, mem |-> t] : k \in NodeKs, t \in NodeTables }
+           \cup { [a |-> "relay", via |-> "pick", k |-> k, mem |-> t] : k \in PickKs, t \in PickTables }
 
 Do(v, o) ==
   /\ last.a = "init"
